@@ -11,6 +11,7 @@ pub mod c04;
 pub mod c05;
 pub mod c06;
 pub mod c07;
+pub mod c09;
 pub mod c10;
 pub mod c11;
 pub mod c12;
@@ -18,6 +19,7 @@ pub mod c13;
 #[cfg(feature = "ff")]
 pub mod c14;
 pub mod c15;
+pub mod c16;
 pub mod c17;
 #[cfg(feature = "ff")]
 pub mod c18;
@@ -49,7 +51,7 @@ pub fn all() -> Vec<Prop> {
 }
 
 fn base() -> Vec<Prop> {
-    vec![c01::PROP, c02::PROP, c03::PROP, c05::PROP, c06::PROP, c07::PROP, c10::PROP, c11::PROP, c12::PROP, c13::PROP, c15::PROP, c17::PROP, c19::PROP, c20::PROP]
+    vec![c01::PROP, c02::PROP, c03::PROP, c05::PROP, c06::PROP, c07::PROP, c09::PROP, c10::PROP, c11::PROP, c12::PROP, c13::PROP, c15::PROP, c16::PROP, c17::PROP, c19::PROP, c20::PROP]
 }
 
 pub fn find(id: &str) -> Option<Prop> {
